@@ -197,6 +197,30 @@ def check_every_emit_recorded(P, rule):
         rule.bad(V(rule.id, "<anchor>", "missing:event-recording-site", "no push of an EventInfo found in the event parser"))
 
 
+def check_namer_tuple_syntax(S, ev, rule):
+    """the text the event parser's type namer writes for a tuple type is read back by TypeResolver::parse_type_structure, whose tuple form is
+    `(` elements separated by `,` `)`: the namer's Type::Tuple arm must produce exactly that bracket pair (any other pair, `[A, B]`, is an
+    unknown custom type to the resolver and is printed untranslated)."""
+    etn = find_type_namer(S)
+    if etn is None:
+        return
+    n = 0
+    for cond, sv in ev.fn_paths(etn, None, lambda n_: None):
+        if not any("Type::Tuple" in str(c_) for c_ in cond):
+            continue
+        r_ = render(sv)
+        if r_ in ("unknown",) or "(" not in r_ and "[" not in r_ and "⟨" not in r_:
+            continue        # (a namer that delegates the arm elsewhere / does not build the text itself)
+        n += 1
+        if r_.startswith("(") and r_.endswith(")") and "," in r_:
+            rule.ok("type namer: tuples are written as %s" % r_)
+        else:
+            rule.bad(V(rule.id, "%s::%s" % (etn.owner, etn.name), "tuple-syntax:%s" % re.sub(r"[^\[\](){}<>,]", "", r_)[:12],
+                       "the type namer writes a tuple type as `%s`: the type resolver only reads `(A, B)` as a tuple, anything else stays an "
+                       "untranslated custom type in the listener's payload type" % r_))
+    return n
+
+
 def check_init_type_selector(P, rule):
     """`let n = Notice::new(..)`: the type recorded for the variable is the path's leading segment; the function guards the selection with
     `segments.len() >= 2`, under which every constant index other than 0 names (for the two-segment form the README documents) the constructor
@@ -210,6 +234,21 @@ def check_init_type_selector(P, rule):
                 if k is None or "int" not in k:
                     continue
                 n += 1
+                # ... and the form is recognised from two segments on (`Type::new()` is the documented case): the lower bound on the
+                # segment count under which the selection happens
+                lo = None
+                for mc in f.must_conditions(c.bb):
+                    m_ = re.match(r"\(call Punctuated::len\(\) (Ge|Gt|Ne|Eq|Lt|Le) (\d+)\)=(true|false)$", mc)
+                    if m_:
+                        op_, k_, tv = m_.group(1), int(m_.group(2)), m_.group(3) == "true"
+                        b_ = {("Ge", True): k_, ("Gt", True): k_ + 1, ("Lt", False): k_, ("Le", False): k_ + 1, ("Eq", True): k_}.get((op_, tv))
+                        if b_ is not None:
+                            lo = b_ if lo is None else max(lo, b_)
+                if lo is not None and lo != 2:
+                    rule.bad(V(rule.id, f.id, "init-type-segment-count:%d" % lo, "`let v = Type::ctor(..)` is recognised only from %d path segments on (expected 2): "
+                               "%s" % (lo, "`Type::new()` no longer types the variable" if lo > 2 else "a plain `make()` call types the variable with the function name"), c.file, c.line))
+                elif lo == 2:
+                    rule.ok("infer_type_from_init: Type::ctor(..) recognised from two segments on")
                 if k["int"] != 0:
                     rule.bad(V(rule.id, f.id, "init-type-from-segment:%s" % k["int"], "the type of `let v = Type::ctor(..)` is read from path segment %s: for "
                                "`Type::new()` that is the function name, not the type" % k["int"], c.file, c.line))
@@ -757,6 +796,7 @@ def check(ctx):
     check_symbol_table_keys(P, r7)
     check_annotated_bindings(P, r7)
     check_init_type_selector(P, r7)
+    check_namer_tuple_syntax(S, ev, r7)
     r7.require_floor(8, "payload typing facts")
     rules.append(r7)
 
